@@ -697,6 +697,17 @@ def gen_ledger_case(rng, tier, idx):
 
     def add(*argv):
         cmds.append(list(argv))
+    if rng.random() < 0.25 and len(led.comms) > 1:
+        # a quote dated on the day of THIS run (the calendar date of the most advanced time zone) and valuations `--now` that day and
+        # `--now` weeks later: with `--now` given, the report depends on files and flags only - not on the clock, not on the time zone
+        # (the child processes of one case run in zones 26 hours apart)
+        import datetime as _dt
+        t = (_dt.datetime.utcnow() + _dt.timedelta(hours=14)).date()
+        c0 = [c for c in led.comms if c != targets[0]][0]
+        files["prices.db"] += "P %s %s %s %s\n" % (t.strftime("%Y/%m/%d"), c0, fmt_num(rng, rng.randint(901, 5000), 1), targets[0])
+        add("balance", "-X", targets[0], "--now", t.isoformat(), "--price-db", "prices.db", "main.ledger")
+        add("balance", "-X", targets[0], "--now", (t + _dt.timedelta(days=40)).isoformat(), "--price-db", "prices.db", "main.ledger")
+        led.features.add("quote-dated-today")
     add("format", "main.ledger")
     add("accounts", "main.ledger")
     add("balance", "main.ledger")
